@@ -1349,6 +1349,17 @@ impl Formatter<'_> {
     }
     fn format_primitive_impl(&mut self, prim: Primitive, span: &CodeSpan, modifier: bool) {
         let as_str = format!("{prim}{}", if modifier { "!" } else { "" });
+        // A `=` after a lone name at the start of a line would turn the line into a binding
+        if prim == Primitive::Eq && !modifier {
+            let line = self.output.rsplit('\n').next().unwrap_or_default().trim();
+            let lone_name = !line.is_empty()
+                && line.chars().all(|c| is_ident_char(c) || "!‼'′″‴".contains(c));
+            let written = span.as_str(self.inputs, |s| s.to_string());
+            if lone_name && written != as_str {
+                self.push(span, &written);
+                return;
+            }
+        }
         if self.output.ends_with(' ')
             && span.end.char_pos - span.start.char_pos > 1
             && !(as_str.starts_with(is_ident_char) || as_str.starts_with('&'))
